@@ -10,7 +10,7 @@ import traceback
 import sympy as sp
 
 from . import source, sym, smt
-from .interp import (Interp, enumerate_paths, Path, SymObj, Closure, PyExc, Undecided, Env, BoundMethod,
+from .interp import (Interp, enumerate_paths, Path, BlockSpec, SymObj, Closure, PyExc, Undecided, Env, BoundMethod,
                      ClassRef, EnumVal, External, Opaque, PathEnd, Infeasible)
 from .smt import VC
 from .sym import real, integer, boolean, specfun, Eq, Ne, And, Or, Not, Implies, Lt, Le, Gt, Ge, R  # noqa: F401
@@ -80,7 +80,7 @@ class Check:
 
     # ---- summaries of real functions
     def summarize(self, module, qualname, make, registry=None, externals=None, loop_specs=None,
-                  config=None, record=True, allow_cut=False):
+                  config=None, record=True, allow_cut=False, block_specs=None):
         """Enumerate the paths of the real function.  ``make(it)`` returns (self_obj|None, args, kwargs, state)."""
         fi = self.under_contract(module, qualname) if record else source.get_function(module, qualname)
 
@@ -94,10 +94,13 @@ class Check:
             val = it.call_closure(clo, list(args), dict(kwargs))
             return val, state
 
-        paths = enumerate_paths(run, registry=registry, externals=externals, loop_specs=loop_specs, config=config)
+        paths = enumerate_paths(run, registry=registry, externals=externals, loop_specs=loop_specs, config=config,
+                                block_specs=block_specs)
         for p in paths:
             self.inlined |= p.inlined
             self.dropped |= p.dropped
+            for a in p.assumed:
+                self.assume_note("assumed contract: " + a)
             if p.outcome == "cut" and not allow_cut:
                 raise Undecided(f"{qualname}: {p.value}")
         self.path_count += len(paths)
@@ -122,6 +125,8 @@ class Check:
         for p in paths:
             self.inlined |= p.inlined
             self.dropped |= p.dropped
+            for a in p.assumed:
+                self.assume_note("assumed contract: " + a)
         self.path_count += len(paths)
         return paths
 
